@@ -2,6 +2,8 @@
 
 package postscript
 
+import "math"
+
 // Machine-checked contracts for package postscript (read by /verif/govc
 // only; never compiled into a normal build).  The Go declarations below are
 // ghost (specification) functions; the //@ blocks are the contracts.
@@ -86,6 +88,30 @@ func isInt(o Object) bool {
 
 func asInt(o Object) Integer {
 	return o.(Integer)
+}
+
+func isReal(o Object) bool {
+	_, ok := o.(Real)
+	return ok
+}
+
+func asReal(o Object) Real {
+	return o.(Real)
+}
+
+func isBool(o Object) bool {
+	_, ok := o.(Boolean)
+	return ok
+}
+
+// addOverflows / subOverflows: the mathematical sum / difference of two
+// machine integers does not fit (stated without leaving machine arithmetic).
+func addOverflows(a, b Integer) bool {
+	return (b > 0 && a > math.MaxInt-b) || (b < 0 && a < math.MinInt-b)
+}
+
+func subOverflows(a, b Integer) bool {
+	return (b < 0 && a > math.MaxInt+b) || (b > 0 && a < math.MinInt+b)
 }
 
 //@ valueinv Object objWF zero-safe
@@ -270,3 +296,56 @@ func asInt(o Object) Integer {
 //@ func bEnd
 //@ ensures [C11.end.underflow] old(len(intp.DictStack)) <= 2 ==> isPSErr(result, eDictstackunderflow) && len(intp.DictStack) == old(len(intp.DictStack))
 //@ ensures [C11.end.ok] old(len(intp.DictStack)) > 2 ==> result == nil && len(intp.DictStack) == old(len(intp.DictStack)) - 1
+
+// ---------------------------------------------------------------------
+// C02: data operators against the PostScript Language Reference
+
+// stackFrame(intp, k): all operands below the top k of the entry stack are untouched.
+//@ define stackFrame(intp, k) = forall i :: 0 <= i && i < old(depth(intp)) - k ==> intp.Stack[i] == old(intp.Stack[i])
+
+//@ func bPop
+//@ ensures [C02.pop.underflow] old(depth(intp)) < 1 ==> isPSErr(result, eStackunderflow) && depth(intp) == old(depth(intp))
+//@ ensures [C02.pop] old(depth(intp)) >= 1 ==> result == nil && depth(intp) == old(depth(intp)) - 1 && stackFrame(intp, 1)
+
+//@ func bDup
+//@ ensures [C02.dup.underflow] old(depth(intp)) < 1 ==> isPSErr(result, eStackunderflow) && depth(intp) == old(depth(intp))
+//@ ensures [C02.dup] old(depth(intp)) >= 1 ==> result == nil && depth(intp) == old(depth(intp)) + 1 && top(intp, 0) == old(top(intp, 0)) && top(intp, 1) == old(top(intp, 0)) && stackFrame(intp, 1)
+
+//@ func bExch
+//@ ensures [C02.exch.underflow] old(depth(intp)) < 2 ==> isPSErr(result, eStackunderflow) && depth(intp) == old(depth(intp))
+//@ ensures [C02.exch] old(depth(intp)) >= 2 ==> result == nil && depth(intp) == old(depth(intp)) && top(intp, 0) == old(top(intp, 1)) && top(intp, 1) == old(top(intp, 0)) && stackFrame(intp, 2)
+
+//@ func bCount
+//@ ensures [C02.count] result == nil && depth(intp) == old(depth(intp)) + 1 && isInt(top(intp, 0)) && asInt(top(intp, 0)) == Integer(old(depth(intp))) && stackFrame(intp, 0)
+
+//@ func bIndex
+//@ ensures [C02.index.underflow] old(depth(intp)) < 2 ==> isPSErr(result, eStackunderflow)
+//@ ensures [C02.index.type] old(depth(intp)) >= 2 && !isInt(old(top(intp, 0))) ==> isPSErr(result, eTypecheck)
+//@ ensures [C02.index.range] old(depth(intp)) >= 2 && isInt(old(top(intp, 0))) && (asInt(old(top(intp, 0))) < 0 || asInt(old(top(intp, 0))) >= Integer(old(depth(intp)) - 1)) ==> isPSErr(result, eRangecheck)
+//@ ensures [C02.index] old(depth(intp)) >= 2 && isInt(old(top(intp, 0))) && 0 <= asInt(old(top(intp, 0))) && asInt(old(top(intp, 0))) < Integer(old(depth(intp)) - 1) ==> result == nil && depth(intp) == old(depth(intp)) && top(intp, 0) == old(top(intp, int(asInt(top(intp, 0))) + 1)) && stackFrame(intp, 1)
+
+//@ func bAdd
+//@ ensures [C02.add.underflow] old(depth(intp)) < 2 ==> isPSErr(result, eStackunderflow) && depth(intp) == old(depth(intp))
+//@ ensures [C02.add.type] old(depth(intp)) >= 2 && (!(isInt(old(top(intp, 1))) || isReal(old(top(intp, 1)))) || !(isInt(old(top(intp, 0))) || isReal(old(top(intp, 0))))) ==> isPSErr(result, eTypecheck) && depth(intp) == old(depth(intp))
+//@ ensures [C02.add.int] old(depth(intp)) >= 2 && isInt(old(top(intp, 1))) && isInt(old(top(intp, 0))) && !addOverflows(asInt(old(top(intp, 1))), asInt(old(top(intp, 0)))) ==> result == nil && depth(intp) == old(depth(intp)) - 1 && isInt(top(intp, 0)) && asInt(top(intp, 0)) == asInt(old(top(intp, 1))) + asInt(old(top(intp, 0))) && stackFrame(intp, 2)
+//@ ensures [C02.add.promote] old(depth(intp)) >= 2 && isInt(old(top(intp, 1))) && isInt(old(top(intp, 0))) && addOverflows(asInt(old(top(intp, 1))), asInt(old(top(intp, 0)))) ==> result == nil && depth(intp) == old(depth(intp)) - 1 && isReal(top(intp, 0)) && asReal(top(intp, 0)) == Real(asInt(old(top(intp, 1)))) + Real(asInt(old(top(intp, 0)))) && stackFrame(intp, 2)
+//@ ensures [C02.add.real] old(depth(intp)) >= 2 && isReal(old(top(intp, 1))) && isReal(old(top(intp, 0))) ==> result == nil && depth(intp) == old(depth(intp)) - 1 && isReal(top(intp, 0)) && asReal(top(intp, 0)) == asReal(old(top(intp, 1))) + asReal(old(top(intp, 0))) && stackFrame(intp, 2)
+
+//@ func bSub
+//@ ensures [C02.sub.underflow] old(depth(intp)) < 2 ==> isPSErr(result, eStackunderflow) && depth(intp) == old(depth(intp))
+//@ ensures [C02.sub.int] old(depth(intp)) >= 2 && isInt(old(top(intp, 1))) && isInt(old(top(intp, 0))) && !subOverflows(asInt(old(top(intp, 1))), asInt(old(top(intp, 0)))) ==> result == nil && depth(intp) == old(depth(intp)) - 1 && isInt(top(intp, 0)) && asInt(top(intp, 0)) == asInt(old(top(intp, 1))) - asInt(old(top(intp, 0))) && stackFrame(intp, 2)
+//@ ensures [C02.sub.promote] old(depth(intp)) >= 2 && isInt(old(top(intp, 1))) && isInt(old(top(intp, 0))) && subOverflows(asInt(old(top(intp, 1))), asInt(old(top(intp, 0)))) ==> result == nil && depth(intp) == old(depth(intp)) - 1 && isReal(top(intp, 0)) && asReal(top(intp, 0)) == Real(asInt(old(top(intp, 1)))) - Real(asInt(old(top(intp, 0)))) && stackFrame(intp, 2)
+
+//@ func bMul
+//@ ensures [C02.mul.underflow] old(depth(intp)) < 2 ==> isPSErr(result, eStackunderflow) && depth(intp) == old(depth(intp))
+//@ ensures [C02.mul.minus1] old(depth(intp)) >= 2 && isInt(old(top(intp, 1))) && isInt(old(top(intp, 0))) && asInt(old(top(intp, 1))) == -1 && asInt(old(top(intp, 0))) != math.MinInt ==> result == nil && isInt(top(intp, 0)) && asInt(top(intp, 0)) == -asInt(old(top(intp, 0)))
+//@ ensures [C02.mul.promote.minint] old(depth(intp)) >= 2 && isInt(old(top(intp, 1))) && isInt(old(top(intp, 0))) && asInt(old(top(intp, 1))) == -1 && asInt(old(top(intp, 0))) == math.MinInt ==> result == nil && isReal(top(intp, 0))
+//@ ensures [C02.mul.promote.minint2] old(depth(intp)) >= 2 && isInt(old(top(intp, 1))) && isInt(old(top(intp, 0))) && asInt(old(top(intp, 0))) == -1 && asInt(old(top(intp, 1))) == math.MinInt ==> result == nil && isReal(top(intp, 0))
+//@ ensures [C02.mul.one] old(depth(intp)) >= 2 && isInt(old(top(intp, 1))) && isInt(old(top(intp, 0))) && asInt(old(top(intp, 1))) == 1 ==> result == nil && isInt(top(intp, 0)) && asInt(top(intp, 0)) == asInt(old(top(intp, 0))) && depth(intp) == old(depth(intp)) - 1 && stackFrame(intp, 2)
+//@ ensures [C02.mul.zero] old(depth(intp)) >= 2 && isInt(old(top(intp, 1))) && isInt(old(top(intp, 0))) && asInt(old(top(intp, 1))) == 0 ==> result == nil && isInt(top(intp, 0)) && asInt(top(intp, 0)) == 0
+
+//@ func bAbs
+//@ ensures [C02.abs.underflow] old(depth(intp)) < 1 ==> isPSErr(result, eStackunderflow)
+//@ ensures [C02.abs.int] old(depth(intp)) >= 1 && isInt(old(top(intp, 0))) && asInt(old(top(intp, 0))) != math.MinInt ==> result == nil && depth(intp) == old(depth(intp)) && isInt(top(intp, 0)) && asInt(top(intp, 0)) >= 0 && (asInt(top(intp, 0)) == asInt(old(top(intp, 0))) || asInt(top(intp, 0)) == -asInt(old(top(intp, 0)))) && stackFrame(intp, 1)
+//@ ensures [C02.abs.promote] old(depth(intp)) >= 1 && isInt(old(top(intp, 0))) && asInt(old(top(intp, 0))) == math.MinInt ==> result == nil && isReal(top(intp, 0)) && asReal(top(intp, 0)) == -Real(asInt(old(top(intp, 0))))
+//@ ensures [C02.abs.type] old(depth(intp)) >= 1 && !isInt(old(top(intp, 0))) && !isReal(old(top(intp, 0))) ==> isPSErr(result, eTypecheck)
